@@ -20,43 +20,50 @@ import (
 	"github.com/tetratelabs/wazero/verifharness/termination"
 	"github.com/tetratelabs/wazero/verifharness/wasifs"
 	"github.com/tetratelabs/wazero/verifharness/wasisafe"
+	"github.com/tetratelabs/wazero/verifharness/wexec"
 )
 
 var cmds = map[string]func([]string){
-	"replay-config":       cfgreplay.Main,
-	"concurrent-config":   cfgreplay.Concurrent,
-	"replay-registry":     registry.Replay,
-	"trace-registry":      registry.Trace,
-	"gate-registry":       registry.Gate,
-	"replay-memory":       memreplay.Main,
-	"memory-concurrent":   memreplay.Concurrent,
-	"replay-memacc":       memacc.Main,
-	"memacc-child":        memacc.Child,
-	"replay-link":         linkreplay.Main,
-	"replay-iso":          isoreplay.Main,
-	"replay-calls":        calls.MainPlain,
-	"calls-child":         calls.ChildPlain,
-	"replay-calls-listen": calls.MainListen,
-	"calls-listen-child":  calls.ChildListen,
-	"replay-wasifs":       wasifs.Main,
-	"wasifs-readdir":      wasifs.Readdir,
-	"replay-sysdef":       sysdef.Main,
-	"sysdef-child":        sysdef.Child,
-	"replay-wasisafe":     wasisafe.Main,
-	"wasisafe-child":      wasisafe.Child,
-	"trace-boundary":      boundary.Main,
-	"run-termination":     termination.Main,
-	"termination-child":   termination.Child,
-	"run-cacheconf":       cacheconf.Main,
-	"cacheconf-child":     cacheconf.Child,
-	"replay-lifecycle":    lifecycle.Main,
-	"lifecycle-child":     lifecycle.Child,
-	"fc-child":            fcache.Child,
-	"fc-replay":           fcache.ReplayProc,
-	"fc-gate":             fcache.ReplayGate,
-	"fc-trunc":            fcache.Trunc,
-	"fc-det":              fcache.Determinism,
-	"fc-points":           fcache.TracePoints,
+	"replay-config":         cfgreplay.Main,
+	"concurrent-config":     cfgreplay.Concurrent,
+	"replay-registry":       registry.Replay,
+	"trace-registry":        registry.Trace,
+	"gate-registry":         registry.Gate,
+	"replay-memory":         memreplay.Main,
+	"memory-concurrent":     memreplay.Concurrent,
+	"replay-memacc":         memacc.Main,
+	"memacc-child":          memacc.Child,
+	"replay-link":           linkreplay.Main,
+	"replay-iso":            isoreplay.Main,
+	"replay-calls":          calls.MainPlain,
+	"calls-child":           calls.ChildPlain,
+	"replay-calls-listen":   calls.MainListen,
+	"calls-listen-child":    calls.ChildListen,
+	"replay-wasifs":         wasifs.Main,
+	"wasifs-readdir":        wasifs.Readdir,
+	"replay-sysdef":         sysdef.Main,
+	"sysdef-child":          sysdef.Child,
+	"replay-wasisafe":       wasisafe.Main,
+	"wasisafe-child":        wasisafe.Child,
+	"trace-boundary":        boundary.Main,
+	"run-termination":       termination.Main,
+	"termination-child":     termination.Child,
+	"run-cacheconf":         cacheconf.Main,
+	"cacheconf-child":       cacheconf.Child,
+	"replay-lifecycle":      lifecycle.Main,
+	"lifecycle-child":       lifecycle.Child,
+	"wexec-diff":            wexec.MainDiff,
+	"wexec-diff-child":      wexec.ChildDiff,
+	"wexec-compile":         wexec.MainCompile,
+	"wexec-compile-child":   wexec.ChildCompile,
+	"wexec-constexpr":       wexec.MainConstExpr,
+	"wexec-constexpr-child": wexec.ChildConstExpr,
+	"fc-child":              fcache.Child,
+	"fc-replay":             fcache.ReplayProc,
+	"fc-gate":               fcache.ReplayGate,
+	"fc-trunc":              fcache.Trunc,
+	"fc-det":                fcache.Determinism,
+	"fc-points":             fcache.TracePoints,
 }
 
 func main() {
